@@ -37,4 +37,11 @@ def rule_validation_is_the_readers(ctx):
 
 from .common import rule_module_state  # noqa: E402
 
-RULES = [rule_writer, rule_validation_is_the_readers, rule_module_state]
+def rule_write_rows_agrees_with_write_row(ctx):
+    """O14.3: writing many rows at once emits what writing them one by one emits (sibling agreement in the row writer)."""
+    from . import protocol
+
+    protocol.write_rows_agreement_table(ctx, "O14.3")
+
+
+RULES = [rule_writer, rule_validation_is_the_readers, rule_write_rows_agrees_with_write_row, rule_module_state]
